@@ -135,12 +135,24 @@ def run_case(case, keep_world=False, monitors=None):
 
 
 def describe_errors(w):
+    """Root causes first: exceptions raised inside event-loop callbacks (the first one in full, the others by their
+    exception text), then the parties' own errors ('Event loop stopped ...' is only a consequence and listed once)."""
     out = []
+    seen = set()
+    for pid, step, msg, exc in w.loop_exceptions:
+        if exc in seen:
+            continue
+        seen.add(exc)
+        out.append(f'party {pid} loop exception at step {step}: {msg}: {exc}' if len(seen) == 1 else f'party {pid}: {exc}')
+    stopped = []
     for p in w.parties:
         if p.error is not None:
-            out.append(f'party {p.pid}: {p.error!r}')
-    for pid, step, msg, exc in w.loop_exceptions:
-        out.append(f'party {pid} loop exception at step {step}: {msg}: {exc}')
+            if 'Event loop stopped before Future completed' in repr(p.error):
+                stopped.append(p.pid)
+            else:
+                out.append(f'party {p.pid}: {p.error!r}')
+    if stopped:
+        out.append(f"parties {stopped}: RuntimeError('Event loop stopped before Future completed.')")
     return out
 
 
